@@ -951,7 +951,7 @@ def build_fncall(
         for binding, doc in kwargdocs
     ]
 
-    if not (argdocs or kwargdocs):
+    if not (argdocs or kwargdocs or trailing_comment):
         return concat([
             fndoc,
             LPAREN,
@@ -1249,7 +1249,16 @@ def pretty_bracketable_iterable(value, ctx, trailing_comment=None):
     elif isinstance(value, set):
         left, right = LBRACE, RBRACE
 
-    if not value:
+    if not value and trailing_comment:
+        # The comment must not be lost: it goes between the brackets,
+        # or inside the call for set() and subclass instances.
+        if not (is_native_type and isinstance(value, (list, tuple))):
+            return build_fncall(
+                ctx,
+                general_identifier(constructor),
+                trailing_comment=trailing_comment
+            )
+    elif not value:
         if isinstance(value, (list, tuple)):
             if is_native_type:
                 return concat([left, right])
